@@ -5,13 +5,16 @@ usage: killmatrix.py [seed-name ...]"""
 import json, os, subprocess, sys, glob, concurrent.futures as cf
 root = os.path.dirname(os.path.dirname(os.path.abspath(__file__)))
 props = subprocess.run([f"{root}/bin/mwcheck","-list"],capture_output=True,text=True).stdout.split()
-seeds = sorted(os.path.basename(os.path.dirname(p)) for p in glob.glob(f"{root}/seeded/*/patch.diff"))
+paths = {os.path.basename(os.path.dirname(p)): p for p in glob.glob(f"{root}/seeded/*/patch.diff")}
+paths.update({os.path.basename(p)[:-5]: p for p in glob.glob(f"{root}/mutants/*.diff")})
+seeds = sorted(paths)
 if len(sys.argv) > 1: seeds = [s for s in seeds if s in sys.argv[1:]]
 def run(seed, prop):
     ev = f"/tmp/km/{seed}/{prop}"
     os.makedirs(ev, exist_ok=True)
-    p = subprocess.run([f"{root}/bin/mwcheck","-p",prop,"-patch",f"{root}/seeded/{seed}/patch.diff","-evidence-dir",ev],capture_output=True,text=True)
+    p = subprocess.run([f"{root}/bin/mwcheck","-p",prop,"-patch",paths[seed],"-evidence-dir",ev],capture_output=True,text=True)
     finds = [l.split(" pos=")[0].replace("finding: ","") for l in p.stdout.splitlines() if l.startswith("finding: ")]
+    finds = [f for f in finds]
     return seed, prop, p.returncode, finds
 res = {}
 with cf.ThreadPoolExecutor(max_workers=12) as ex:
@@ -20,8 +23,8 @@ with cf.ThreadPoolExecutor(max_workers=12) as ex:
         s, p, rc, finds = f.result()
         res.setdefault(s, {})[p] = {"rc": rc, "findings": finds}
 old = {}
-path = f"{root}/seeded/KILLMATRIX.json"
-if os.path.exists(path) and len(sys.argv) > 1: old = json.load(open(path))
+path = f"{root}/mutants/KILLMATRIX.json"
+if os.path.exists(path): old = json.load(open(path))
 old.update(res)
 json.dump(old, open(path,"w"), indent=1, sort_keys=True)
 for s in sorted(res):
